@@ -388,14 +388,14 @@ def unit_nontext(ctx, P, correspond=True):
             if len([s for s in ctx.samples if s.get("unit") == "nontext"]) < 2 and types:
                 ctx.sample(dict(unit="nontext", kind=kind, sp=eid, identity=tag_ident(ident), policy=pol, outcome=impl))
     if correspond:
-        ctx.correspond("nontext_favs", "Model.PolicyVal", "fun x => run_v_favs (fst (fst x)) (snd (fst x)) (snd x)",
+        ctx.correspond("nontext_favs", "Model.Policy Model.PolicyVal", "fun x => run_v_favs (fst (fst x)) (snd (fst x)) (snd x)",
                        "(list (str * str) * vava * restrictions)", per["nontext_favs"], shard=120)
-        ctx.correspond("nontext_restrict", "Model.PolicyVal", "run_v_restrict", "vcase", per["nontext_restrict"], shard=60)
-        ctx.correspond("nontext_pfilter", "Model.PolicyVal", "fun x => run_v_pfilter (fst x) (fst (snd x)) (snd (snd x))",
+        ctx.correspond("nontext_restrict", "Model.Policy Model.PolicyVal", "run_v_restrict", "vcase", per["nontext_restrict"], shard=60)
+        ctx.correspond("nontext_pfilter", "Model.Policy Model.PolicyVal", "fun x => run_v_pfilter (fst x) (fst (snd x)) (snd (snd x))",
                        "(vcase * (list decl * list decl))", per["nontext_pfilter"], shard=60)
-        ctx.correspond("nontext_authn", "Model.PolicyVal", "run_v_authn", "vcase", per["nontext_authn"], shard=60)
-        ctx.correspond("nontext_setup", "Model.PolicyVal", "fun x => run_v_setup (fst x) (snd x)", "(vcase * bool)", per["nontext_setup"], shard=60)
-        ctx.correspond("nontext_attribute", "Model.PolicyVal", "fun x => run_v_attribute (fst x) (snd x)", "(vcase * bool)",
+        ctx.correspond("nontext_authn", "Model.Policy Model.PolicyVal", "run_v_authn", "vcase", per["nontext_authn"], shard=60)
+        ctx.correspond("nontext_setup", "Model.Policy Model.PolicyVal", "fun x => run_v_setup (fst x) (snd x)", "(vcase * bool)", per["nontext_setup"], shard=60)
+        ctx.correspond("nontext_attribute", "Model.Policy Model.PolicyVal", "fun x => run_v_attribute (fst x) (snd x)", "(vcase * bool)",
                        per["nontext_attribute"], shard=60)
     else:
         ctx.evaluations += sum(len(v) for v in per.values())
